@@ -539,6 +539,13 @@ fn one_run_inner(ctx: &RunCtx) -> RunOut {
     if let Some(e) = r.errors.iter().find(|e| e.starts_with("PANIC")) {
         return RunOut::fail(Violation::new("C17.panic", format!("asking the adapter for a stream identifier panicked: {e}; ids so far {:?}", r.ids)).fact("call", e.split(':').next().unwrap_or("").trim_start_matches("PANIC ")));
     }
+    // Under injected packet loss QUIC's own loss recovery can legitimately run into the idle timeout (PTO
+    // back-off built up during a lossy handshake, probes lost again): the connection then ends with Timeout
+    // whatever the adapter does. Such a run is inconclusive, not a violation; loss-free runs keep the rule.
+    if lossy && !(mode == 1 && fault_kind == 3) && (r.errors.iter().any(|e| e.contains("Timeout")) || r.outcome.iter().any(|(_, o)| o.contains("Timeout"))) {
+        obs::count("probe.run_ended_by_idle_timeout_under_packet_loss");
+        return RunOut::ok(false);
+    }
     if stop != Stop::Done {
         return fail("C17.did_not_finish", format!("the scenario did not finish ({stop:?}) within 400000 steps / virtual {:?}; record {:?}; pending {:?}; polls {} timer fires {} packets {}", e3::now(), Rec { peer_read: None, adapter_read: None, ..r.clone() }, e3::pending_tasks(), e3::with(|c| c.polls), e3::with(|c| c.timer_fires), e3::with(|c| c.packets_sent)), what);
     }
@@ -629,6 +636,10 @@ fn finish_full_stack(ctx: &RunCtx, stop: Stop, rec: &Rc<RefCell<Rec>>, req_body:
         return v;
     }
     let r = rec.borrow();
+    if lossy && r.errors.iter().any(|e| e.contains("Timeout")) {
+        obs::count("probe.run_ended_by_idle_timeout_under_packet_loss");
+        return RunOut::ok(false);
+    }
     if let Some(e) = r.errors.first() {
         return fail("C17.h3_over_quinn_failed", format!("{e}; all {:?}", r.errors), "full_stack");
     }
